@@ -40,7 +40,11 @@ type sample struct {
 
 // scrape runs the real collector and decodes what it emits.
 func scrape(e *Env) (map[string]float64, error) {
-	col := metric.NewMetricCollector(e.Client, e.Stream, e.VBD)
+	// one collector for the life of the process, as registered by the library (state kept across scrapes matters)
+	if e.Col == nil {
+		e.Col = metric.NewMetricCollector(e.Client, e.Stream, e.VBD)
+	}
+	col := e.Col
 	ch := make(chan prometheus.Metric, 4096)
 	col.Collect(ch)
 	close(ch)
